@@ -182,13 +182,13 @@ def run(c):
                 continue
             inp = {"group": o["group"], "alternative": o["alt"], "report_template": o["msg_tpl"], "suggest_template": o["sugg_tpl"],
                    "at": o["at"], "TruncateLen": o["L"], "whole_match": repr(b64(o["whole"]["text"])), "node_ends_at_EOF": o["at_eof"],
-                   "captures": [(x["name"], repr(b64(x.get("text")))) for x in o["caps"]]}
+                   "captures": [(x["name"], repr(b64(x.get("text")))) for x in o["caps"]], "file": o.get("version")}
             for k in ("o_msg", "w_msg", "o_sugg", "w_sugg"):
                 o[k] = b64(o.get(k))
             if o["missing"]:
                 c.fail("oracle", "a generated match site produced no report", input=inp, expected="one report", observed="none")
                 continue
-            c.nontriv(("engine", o["group"], o["alt"], o["L"], o["w_pos"]))
+            c.nontriv(("engine", o["group"], o["alt"], o["L"], o["w_pos"], o.get("version")))
             if o["extra"]:
                 c.fail("oracle", "more than one report for one match site", input=inp, expected=1, observed=1 + o["extra"])
             fx = guard_fixedtext(o["msg_tpl"], o["caps"], False)
@@ -200,9 +200,9 @@ def run(c):
             if not (0 <= o["o_pos"] <= o["o_end"] <= o["srcn"]):
                 c.fail("oracle", "reported node lies outside the file", input=inp, expected="0<=pos<=end<=%d" % o["srcn"],
                        observed=[o["o_pos"], o["o_end"]])
-            if o["o_line"] != o["w_line"] or o["o_group"] != "g%d" % o["group"]:
+            if o["o_line"] != o["w_line"] or o["o_group"] != o["w_group"]:
                 c.fail("oracle", "RuleInfo does not identify the group and the line of the alternative that matched", input=inp,
-                       expected={"group": "g%d" % o["group"], "line": o["w_line"]}, observed={"group": o["o_group"], "line": o["o_line"]})
+                       expected={"group": o["w_group"], "line": o["w_line"]}, observed={"group": o["o_group"], "line": o["o_line"]})
             if o.get("o_file") != o.get("w_file"):
                 c.fail("oracle", "reported node lies in another file of the FileSet than the analysed one", input=inp, expected=o.get("w_file"),
                        observed=o.get("o_file"))
